@@ -13,15 +13,30 @@ MetabolicResult.success, ToolResult.success):
   * a request that names a currently registered disallowed tool is reported as a failure
     (MetabolicResult.success / ToolResult.success false).
 Allowed tools actually running is recorded as an outcome (non-vacuity guard), not judged.
+
+Engine D (flat, exhaustive scenario family; same step functions and the same oracle): the dimensions the two
+searches above hold fixed -
+  * every constructor option of the engine (silent, timeout_seconds, max_ros, the container type of the allowed
+    set, registration through the constructor's `tools=`) crossed with every entry point / text shape and with
+    every form a declaration can take (set / frozenset / list / tuple, both attributes, attribute present but
+    None, a SimpleTool engulfed directly, requirements given as plain strings);
+  * histories judged by what the OBSERVER did before, not by the engine's own attributes: the judged request
+    runs after a prefix (a call through any entry point to the same or another name, an introspection call,
+    repair(), a call on ANOTHER engine in the same process that knows the same name or shares the very same
+    tool object) and after re-registration - so a decision remembered anywhere (instance attribute, class,
+    module, closure, the tool object, a long-lived Nucleus) is exercised.
 """
 from __future__ import annotations
+
+import contextlib
+import itertools
 
 from mc import choice, common, explore
 
 from operon_ai.core.types import Capability
-from operon_ai.organelles.mitochondria import MetabolicPathway, Mitochondria
+from operon_ai.organelles.mitochondria import MetabolicPathway, Mitochondria, SimpleTool
 from operon_ai.organelles.nucleus import Nucleus
-from operon_ai.providers import LLMResponse, ToolCall
+from operon_ai.providers import LLMResponse, ProviderConfig, ToolCall
 
 CAP = {c.name: c for c in Capability}
 ALLOWED = [None, [], ["NET"], ["NET", "READ_FS"]]
@@ -44,6 +59,39 @@ MET_THOROUGH = [(p, s) for p in PW for s in SHAPES]
 LLM_SCRIPTS = [[["t0"]], [["t1"]], [["t0", "t1"]], [["zz"], ["t0"]], [["t0"], ["t0"]]]
 KNOWN_ATTRS = {"timeout", "max_ros", "silent", "allowed_capabilities", "tools", "_total_atp_produced",
                "_ros_accumulated", "_operations_count"}
+INTRO = ["list_tools", "export_tool_schemas", "get_statistics", "repair"]  # public calls that are not requests for a tool
+ETC_NAMES = ["t0", "t1", "zz", "T0", " t0"]  # structured calls also ask for near-miss spellings of a registered name
+
+# ---- engine D alphabet ----------------------------------------------------------------------------------
+# a requirement entry "s:<text>" is the plain string <text> instead of a Capability member (the engine's own
+# listing code anticipates such entries); no string is a member of any allowed set of the alphabet
+REQS_X = [["NET"], ["MONEY"], ["NET", "MONEY"]]
+DECLS_X = DECLS + \
+    [(f"required-{c}", r) for c in ("frozenset", "list", "tuple") for r in REQS_X] + \
+    [(f"capabilities-{c}", r) for c in ("set", "tuple") for r in REQS_X] + \
+    [("both", r) for r in REQS_X] + [("required-none", [])] + [("simpletool", r) for r in REQS] + \
+    [("required", ["s:money"]), ("capabilities", ["s:root"]), ("register", ["NET", "s:root"]), ("simpletool", ["s:money"])]
+BASE_OPTS = {"silent": True, "timeout": 5.0, "max_ros": 1e9, "container": "set", "via": "call"}
+# non-default values per constructor dimension ("via": the first registrations go through `tools=` of the constructor)
+OPT_ALTS = [("silent", [False]), ("timeout", [0]), ("max_ros", [1.0, 0.0]), ("container", ["frozenset"]), ("via", ["ctor"])]
+RESTRICTED = [a for a in ALLOWED if a is not None]
+ALL_CAPS = [c.name for c in Capability]
+CALL_KINDS = {  # one representative request per entry point, for prefixes and for the judged call of a history
+    "met-auto": lambda n: ("met", n, "auto", "call"),
+    "met-tool": lambda n: ("met", n, "tool", "args"),
+    "etc": lambda n: ("etc", n, 0),
+    "llm": lambda n: ("llmx", [[n]], True, 3, False),
+}
+PREFIXES = [("none",)] + [("call", t, k) for t in ("t0", "t1") for k in CALL_KINDS] + [("intro", w) for w in INTRO] + \
+           [(how, a2, k) for how in ("other", "shared") for a2 in ("none", "all") for k in ("met-tool", "etc")]
+LLMX_SCRIPTS = [[["t0"]], [["zz", "T0"], ["t0", "t0"]]]  # direct request; unknown + near-miss name, then the same tool twice
+
+
+def opt_combos(full):
+    if full:
+        dims = [[(k, BASE_OPTS[k])] + [(k, v) for v in alts] for k, alts in OPT_ALTS]
+        return [tuple(kv for kv in combo if kv[1] != BASE_OPTS[kv[0]]) for combo in itertools.product(*dims)]
+    return [()] + [((k, v),) for k, alts in OPT_ALTS for v in alts]
 
 
 class _ToolBase:
@@ -73,6 +121,15 @@ class BareTool(_ToolBase):
     pass
 
 
+class FormTool(_ToolBase):
+    """declaration given as arbitrary attributes (other container types, both attributes, attribute set to None)"""
+
+    def __init__(self, name, attrs):
+        super().__init__(name)
+        for k, v in attrs.items():
+            setattr(self, k, v)
+
+
 class Rec:
     """reference record of one tool object ever registered in this history"""
     __slots__ = ("name", "style", "req", "obj", "current")
@@ -82,43 +139,102 @@ class Rec:
 
 
 class St:
-    __slots__ = ("mito", "allowed", "recs", "last")
+    __slots__ = ("mito", "allowed", "recs", "last", "nucleus")
+
+
+class _Null:
+    def write(self, _s):
+        return 0
+
+    def flush(self):
+        pass
+
+
+_NULL = _Null()
+_CONTAINERS = {"set": set, "frozenset": frozenset, "list": list, "tuple": tuple}
 
 
 def caps(names):
-    return {CAP[n] for n in names}
+    return {CAP[n] if n in CAP else n[2:] for n in names}
 
 
-def build_state(allowed):
-    st = St()
-    st.allowed = None if allowed is None else frozenset(allowed)
-    st.mito = Mitochondria(silent=True, max_ros=1e9, allowed_capabilities=None if allowed is None else caps(allowed))
-    st.recs = []
-    st.last = ("init",)
-    return st
+def cap_list(names):
+    return [CAP[n] if n in CAP else n[2:] for n in names]
 
 
-def register(st, name, style, req):
-    rec = Rec()
-    rec.name, rec.style, rec.req, rec.current = name, style, frozenset(req), True
+def make_tool(name, style, req):
+    """-> (counter object, what to hand to engulf_tool / `tools=`, or None when register_function is to be used)"""
     if style == "required":
-        rec.obj = ReqTool(name, caps(req))
-        st.mito.engulf_tool(rec.obj)
+        obj = ReqTool(name, caps(req))
     elif style == "capabilities":
-        rec.obj = CapTool(name, [CAP[n] for n in req])
-        st.mito.engulf_tool(rec.obj)
+        obj = CapTool(name, cap_list(req))
     elif style == "none":
-        rec.obj = BareTool(name)
-        st.mito.engulf_tool(rec.obj)
-    elif style == "register":
-        rec.obj = BareTool(name)  # only its counter/body is used: the engine wraps obj.execute in a SimpleTool
-        st.mito.register_function(name, rec.obj.execute, description="fn", required_capabilities=caps(req))
+        obj = BareTool(name)
+    elif style.startswith("required-") and style[9:] in _CONTAINERS:
+        obj = FormTool(name, {"required_capabilities": _CONTAINERS[style[9:]](cap_list(req))})
+    elif style.startswith("capabilities-") and style[13:] in _CONTAINERS:
+        obj = FormTool(name, {"capabilities": _CONTAINERS[style[13:]](cap_list(req))})
+    elif style == "both":
+        obj = FormTool(name, {"required_capabilities": caps(req), "capabilities": cap_list(req)})
+    elif style == "required-none":
+        if req:
+            raise common.HarnessError("required-none declares nothing")
+        obj = FormTool(name, {"required_capabilities": None})
+    elif style in ("register", "simpletool"):
+        obj = BareTool(name)  # only its counter/body is used: the engine's SimpleTool wraps obj.execute
+        if style == "register":
+            return obj, None
+        return obj, SimpleTool(name=name, description="fn", func=obj.execute, required_capabilities=caps(req))
     else:
         raise common.HarnessError(f"unknown declaration style {style}")
+    return obj, obj
+
+
+def _new_rec(st, name, style, req, obj):
+    rec = Rec()
+    rec.name, rec.style, rec.req, rec.current, rec.obj = name, style, frozenset(req), True, obj
     for r in st.recs:
         if r.name == name:
             r.current = False
     st.recs.append(rec)
+    return rec
+
+
+def build_state(allowed, opts=None, ctor=()):
+    """opts: overrides of BASE_OPTS; ctor: [(name, style, req)] registered through the constructor's `tools=`"""
+    o = dict(BASE_OPTS)
+    o.update(opts or {})
+    st = St()
+    st.allowed = None if allowed is None else frozenset(allowed)
+    st.recs = []
+    st.last = ("init",)
+    st.nucleus = None
+    handed = []
+    for name, style, req in ctor:
+        obj, engulfable = make_tool(name, style, req)
+        if engulfable is None:  # what register_function would build
+            engulfable = SimpleTool(name=name, description="fn", func=obj.execute, required_capabilities=caps(req))
+        _new_rec(st, name, style, req, obj)
+        handed.append(engulfable)
+    a = None if allowed is None else _CONTAINERS[o["container"]](caps(allowed))
+    st.mito = Mitochondria(timeout_seconds=o["timeout"], max_ros=o["max_ros"], tools=handed or None,
+                           allowed_capabilities=a, silent=o["silent"])
+    return st
+
+
+def register(st, name, style, req, share_from=None):
+    """share_from: another state whose currently registered tool object `name` is engulfed here as well"""
+    if share_from is not None:
+        src = current(share_from, name)
+        st.mito.engulf_tool(share_from.mito.tools[name])
+        _new_rec(st, name, src.style, src.req, src.obj)
+        return
+    obj, engulfable = make_tool(name, style, req)
+    if engulfable is None:
+        st.mito.register_function(name, obj.execute, description="fn", required_capabilities=caps(req))
+    else:
+        st.mito.engulf_tool(engulfable)
+    _new_rec(st, name, style, req, obj)
 
 
 def current(st, name):
@@ -167,8 +283,9 @@ class ScriptedProvider:
         return LLMResponse(content="" if calls else "done", model="scripted", tokens_used=1, latency_ms=0.0), calls
 
 
-def llm_loop(st, next_round, auto, max_iter):
-    """run Nucleus.transcribe_with_tools against st.mito; -> (violations, requested names, results seen)"""
+def llm_loop(st, next_round, auto, max_iter, config=None, shared=False):
+    """run Nucleus.transcribe_with_tools against st.mito; -> (violations, requested names, results seen)
+    shared: one Nucleus (and provider) lives as long as the state and serves all its loops"""
     seen = []
     orig = st.mito.execute_tool_call
 
@@ -188,8 +305,14 @@ def llm_loop(st, next_round, auto, max_iter):
     targets = {r.name: r for r in st.recs if r.current}
     st.mito.execute_tool_call = spy  # observe ToolResult.success of the calls the loop makes
     try:
-        nuc = Nucleus(provider=ScriptedProvider(rounds))
-        nuc.transcribe_with_tools("use the tools", st.mito, max_iterations=max_iter, auto_execute=auto)
+        if shared:
+            if st.nucleus is None:
+                st.nucleus = Nucleus(provider=ScriptedProvider(rounds))
+            nuc = st.nucleus
+            nuc.provider.next_round, nuc.provider.rounds = rounds, 0
+        else:
+            nuc = Nucleus(provider=ScriptedProvider(rounds))
+        nuc.transcribe_with_tools("use the tools", st.mito, config=config, max_iterations=max_iter, auto_execute=auto)
     except Exception as e:  # noqa: BLE001
         v = [(f"raises:llm-loop:{type(e).__name__}", f"transcribe_with_tools raised {type(e).__name__}: {e}")]
         return v + judge_counters(st, before, "llm-loop"), requested, seen
@@ -224,11 +347,16 @@ class Model:
         for n in self.names[:2] + ["zz"]:
             for pw, shape in self.met:
                 o.append(("met", n, pw, shape))
+            o.append(("dig", n))
+        for n in ETC_NAMES:
             o.append(("etc", n, 0))
-            o.append(("etc", n, 1))
+            if n in self.names or n == "zz":
+                o.append(("etc", n, 1))
         for i in range(len(LLM_SCRIPTS)):
             o.append(("llm", i, True))
             o.append(("llm", i, False))
+        for w in INTRO:
+            o.append(("intro", w))
         return o
 
     def canon(self, st):
@@ -296,6 +424,43 @@ class Model:
             v, requested, seen = llm_loop(st, lambda i: script[i] if i < len(script) else [], bool(auto), 3)
             st.last = ("llm", bool(auto), tuple(seen))
             return v
+        if kind == "llmx":  # engine D: the script is spelled out; max_iterations / config vary; the state's own Nucleus
+            _, script, auto, max_iter, cfg = op
+            script = [list(r) for r in script]
+            v, requested, seen = llm_loop(st, lambda i: script[i] if i < len(script) else [], bool(auto), int(max_iter),
+                                          config=ProviderConfig(temperature=0.0, max_tokens=16) if cfg else None, shared=True)
+            asked = [current(st, n) for n in requested]
+            status = "no-tool" if not any(asked) else (
+                "disallowed" if any(r is not None and disallowed(st, r) for r in asked) else "allowed")
+            st.last = ("llmx", bool(auto), int(max_iter), bool(cfg), status, tuple(seen))
+            return v
+        if kind == "dig":
+            _, name = op
+            entry = "digest_glucose"
+            text = f"{name}()"
+            try:
+                out = st.mito.digest_glucose(text)
+                success = not str(out).startswith("Metabolic Failure")
+            except Exception as e:  # noqa: BLE001 - a raise is a refusal
+                success = False
+            v = judge_counters(st, before, entry)
+            rec = current(st, name)
+            ran = rec is not None and rec.count() != before[st.recs.index(rec)]
+            if rec is not None and disallowed(st, rec) and success:
+                v.append((f"disallowed-call-reported-success:{entry}",
+                          f"digest_glucose({text!r}) does not report a failure although {name!r} requires {sorted(rec.req)} and "
+                          f"only {sorted(st.allowed)} is allowed"))
+            st.last = ("dig", "no-tool" if rec is None else ("disallowed" if disallowed(st, rec) else "allowed"),
+                       "ran" if ran else "not-run", success)
+            return v
+        if kind == "intro":  # not a request for any tool: nothing may run (only disallowed tools are judged)
+            _, which = op
+            try:
+                getattr(st.mito, which)()
+                st.last = ("intro", which, "ok")
+            except Exception as e:  # noqa: BLE001
+                st.last = ("intro", which, "raised", type(e).__name__)
+            return judge_counters(st, before, which)
         raise common.HarnessError(f"unknown op {op!r}")
 
 
@@ -350,6 +515,169 @@ def _b_root(arg):
     return n, nontrivial, outcomes, viol
 
 
+# ---- engine D ---------------------------------------------------------------------------------------
+_STEP = Model("quick")  # only its step() is used
+
+
+def scenario(sc):
+    """sc = (opts, allowed, A | None, prefix, B, judged op) -> (violations, observation, judged something?)
+
+    The engine is built with `opts`; t0 is registered with declaration A (B when A is None) - through the constructor
+    when opts say so -, the prefix runs, B replaces A under the same name (when A is given), then the judged request.
+    Every step is judged by the same oracle as in engine A."""
+    opts, allowed, a_decl, prefix, b_decl, judged = sc
+    opts = {k: v for k, v in opts}
+    allowed = None if allowed is None else list(allowed)
+    first = b_decl if a_decl is None else a_decl
+    pk = prefix[0]
+    initial = [("t0", first[0], list(first[1]))]
+    if pk == "call" and prefix[1] == "t1":
+        initial.append(("t1", first[0], list(first[1])))
+    v = []
+    if opts.get("via") == "ctor":
+        st = build_state(allowed, opts, ctor=initial)
+        v += judge_counters(st, [0] * len(st.recs), "constructor")
+    else:
+        st = build_state(allowed, opts)
+        for name, style, req in initial:
+            v += _STEP.step(st, ("reg", name, style, req))
+    st2 = None
+    if pk == "call":
+        v += _STEP.step(st, CALL_KINDS[prefix[2]](prefix[1]))
+    elif pk == "intro":
+        v += _STEP.step(st, ("intro", prefix[1]))
+    elif pk in ("other", "shared"):
+        # a second engine of the same process that allows everything (or is unrestricted) knows the name t0 too:
+        # "other" = its own tool object declared like A, "shared" = the very object that B then registers in `st`
+        o2 = {k: x for k, x in opts.items() if k != "via"}
+        st2 = build_state(None if prefix[1] == "none" else ALL_CAPS, o2)
+        d2 = first if pk == "other" else b_decl
+        before = [r.count() for r in st.recs]
+        v += _STEP.step(st2, ("reg", "t0", d2[0], list(d2[1])))
+        v += _STEP.step(st2, CALL_KINDS[prefix[2]]("t0"))
+        v += judge_counters(st, before, "call-on-another-engine")
+    if a_decl is not None:
+        if pk == "shared":
+            before = [r.count() for r in st.recs] + [current(st2, "t0").count()]  # it ran legitimately over there
+            register(st, "t0", None, None, share_from=st2)
+            st.last = ("reg", "shared-object")
+            v += judge_counters(st, before, "registration")
+        else:
+            v += _STEP.step(st, ("reg", "t0", b_decl[0], list(b_decl[1])))
+    v += _STEP.step(st, tuple(judged))
+    if set(r.name for r in st.recs if r.current) != set(st.mito.tools):
+        raise common.HarnessError(f"reference registry != engine registry {sorted(st.mito.tools)} in scenario {sc!r}")
+    judged_something = any(disallowed(st, r) for r in st.recs)
+    obs = (tuple(sorted(opts)), pk, repr(st.last))
+    return v, obs, judged_something
+
+
+def _quiet_scenario(sc):
+    with contextlib.redirect_stdout(_NULL):  # silent=False engines narrate on stdout
+        return scenario(sc)
+
+
+def d_entries(thorough):
+    met = MET_THOROUGH if thorough else MET_QUICK
+    return [("met", "t0", pw, shape) for pw, shape in met] + [("dig", "t0")] + \
+           [("etc", n, 0) for n in ("t0", "T0", " t0")] + [("etc", "t0", 1)] + \
+           [("llmx", s, auto, mi, cfg) for s in LLMX_SCRIPTS for auto in (True, False) for mi in (0, 1, 3) for cfg in (False, True)]
+
+
+def d_blocks(thorough):
+    """engine D's scenario space as a deterministic list of JSON-able blocks; a worker expands a block itself.
+
+    D1 (every option combination x every declaration form x every entry point; one registration, one request):
+        ("D1", thorough, opts, allowed)
+    D2 (observer-defined histories: declaration A, prefix, re-registration as B, judged request - only histories in which A
+    or B is out of bounds, otherwise the oracle has nothing to judge):
+        ("D2", opts, allowed, A, "plain" | "forms")
+        quick: one option off its default at a time x engine A's declarations ("plain"); thorough: all option combinations
+        x those declarations, plus one-option-at-a-time x all declaration forms ("forms": the pairs not already listed)"""
+    out = [("D1", thorough, opts, allowed) for opts in opt_combos(True) for allowed in RESTRICTED]
+    for combos, decls, which in [(opt_combos(thorough), DECLS, "plain")] + ([(opt_combos(False), DECLS_X, "forms")] if thorough else []):
+        out += [("D2", opts, allowed, a, which) for opts in combos for allowed in RESTRICTED for a in decls]
+    return out
+
+
+def expand_block(block):
+    if block[0] == "D1":
+        _, thorough, opts, allowed = block
+        for decl in DECLS_X:
+            for e in d_entries(thorough):
+                yield (opts, allowed, None, ("none",), decl, e)
+        return
+    _, opts, allowed, a, which = block
+    al = frozenset(allowed)
+    judged = [CALL_KINDS[k]("t0") for k in CALL_KINDS]
+    for b in (DECLS if which == "plain" else DECLS_X):
+        if frozenset(a[1]) <= al and frozenset(b[1]) <= al:
+            continue
+        if which == "forms" and a in DECLS and b in DECLS:
+            continue
+        for prefix in PREFIXES:
+            for j in judged:
+                yield (opts, allowed, a, prefix, b, j)
+
+
+def _d_block(block):
+    n = nontrivial = 0
+    outcomes = set()
+    viol = {}
+    guard = set()
+    for sc in expand_block(block):
+        v, obs, judged_something = _quiet_scenario(sc)
+        n += 1
+        nontrivial += bool(judged_something)
+        outcomes.add(obs)
+        if sc[2] is None:  # D1: per option combination, did an allowed tool run / was a disallowed one refused
+            guard.add((sc[0], "'allowed', 'ran'" in obs[2], "'disallowed', 'not-run'" in obs[2]))
+        for key, what in v:
+            rank = (len(repr(sc)), repr(sc))
+            cur = viol.get(key)
+            if cur is None:
+                viol[key] = [1, rank, what, sc]
+            else:
+                cur[0] += 1
+                if rank < cur[1]:
+                    cur[1], cur[2], cur[3] = rank, what, sc
+    return n, nontrivial, outcomes, viol, guard
+
+
+def run_engine_d(ctx, thorough):
+    blocks = common.rotate(d_blocks(thorough), ctx.seed)
+    n = nontrivial = 0
+    merged = {}
+    guard = set()
+    for cn, cnon, outcomes, viol, g in common.pmap(_d_block, blocks):
+        n += cn
+        nontrivial += cnon
+        guard |= g
+        ctx.outcomes |= {("D",) + o for o in outcomes}
+        for key, (cnt, rank, what, sc) in viol.items():
+            cur = merged.get(key)
+            if cur is None:
+                merged[key] = [cnt, rank, what, sc]
+            else:
+                cur[0] += cnt
+                if rank < cur[1]:
+                    cur[1], cur[2], cur[3] = rank, what, sc
+    for key in sorted(merged):
+        cnt, _rank, what, sc = merged[key]
+        for _ in range(cnt):
+            ctx.report(key, f"scenario {sc!r}: {what}", {"engine": "D", "scenario": sc})
+    for opts in opt_combos(True):
+        ran = any(g[0] == opts and g[1] for g in guard)
+        refused = any(g[0] == opts and g[2] for g in guard)
+        if not refused or not ran:
+            raise common.HarnessError(f"vacuous engine-D family for options {opts!r}: allowed-ran={ran} disallowed-refused={refused}")
+    ctx.stats["D.scenarios"] += n
+    ctx.sample({"engine": "D", "scenario": ((("via", "ctor"),), ["NET"], ("required", []), ("call", "t0", "etc"),
+                                            ("capabilities", ["MONEY"]), ("etc", "t0", 0))})
+    return {"scenarios": n, "judging_scenarios": nontrivial, "blocks": len(blocks), "option_combinations": len(opt_combos(True)),
+            "declaration_forms": len(DECLS_X), "prefixes": len(PREFIXES)}
+
+
 def run(ctx):
     thorough = ctx.tier == "thorough"
     model = Model(ctx.tier)
@@ -381,6 +709,8 @@ def run(ctx):
         for _ in range(cnt):
             ctx.report(key, f"allowed={ALLOWED[root[0]]} t0={DECLS[root[1]]} choices={lab}: {what}", case)
     ctx.stats["B.executions"] += b_exec
+    d = run_engine_d(ctx, thorough)
+    d_exec = d["scenarios"]
     ran_allowed = any("'allowed', 'ran'" in o for o in ctx.outcomes if isinstance(o, str))
     refused = any("'disallowed', 'not-run'" in o for o in ctx.outcomes if isinstance(o, str))
     if not ran_allowed or not refused:
@@ -390,39 +720,53 @@ def run(ctx):
                                                                                  [0, "auto_execute"], [1, "round0"], [0, "round1"]]})
     ctx.coverage.update(
         states=res["states"],
-        transitions=res["transitions"] + b_exec,
-        traces_validated_against_impl=res["transitions"] + b_exec,
-        evaluations=res["transitions"] + b_exec,
-        distinct_nontrivial=res["states"] + b_nontrivial,
+        transitions=res["transitions"] + b_exec + d_exec,
+        traces_validated_against_impl=res["transitions"] + b_exec + d_exec,
+        evaluations=res["transitions"] + b_exec + d_exec,
+        distinct_nontrivial=res["states"] + b_nontrivial + d["judging_scenarios"],
         rule="engine A: BFS over canonical states (allowed set; per tool name the declaration style and requirement of the "
         "currently registered tool, in registration order; every engine attribute unknown to the harness) with every "
         "registration / re-registration / metabolize(text shape x pathway) / execute_tool_call / scripted LLM-loop operation "
         "applied in every reachable state; engine B: every answer sequence of the scripted provider (stop / t0 / t1 / unknown / "
         "two tools per round) after every (allowed set, t0 declaration, t1 declaration or none, t0 re-registration or none, "
-        "auto_execute) prefix; distinct_nontrivial = distinct canonical states + engine-B executions in which a currently "
-        "disallowed tool was requested",
+        "auto_execute) prefix; engine D: the full product (constructor options silent / timeout_seconds / max_ros / allowed-set "
+        "container / registration through tools=) x restricted allowed set x declaration form x entry point (text shapes, "
+        "digest_glucose, structured call incl. near-miss names, LLM loop with max_iterations 0/1/3, config, auto_execute) for one "
+        "registration, and every history (declaration A, prefix = call through any entry point to the same or another name / "
+        "introspection / repair / call on another engine knowing the name or sharing the tool object, re-registration as B, "
+        "judged request through each entry point) in which A or B is out of bounds; distinct_nontrivial = distinct canonical "
+        "states + engine-B executions in which a currently disallowed tool was requested + distinct engine-D scenarios that "
+        "contain an out-of-bounds tool",
         exhaustive=bool(res["fixpoint"]) and max_dev is None,
         fixpoint=res["fixpoint"],
         depth_completed=res["depth_completed"],
         engine_b={"executions": b_exec, "roots": len(roots), "max_iterations": max_iter, "max_deviations": max_dev,
                   "requests_for_disallowed_tool": b_nontrivial},
+        engine_d=d,
         allowed_sets=ALLOWED, declarations=len(DECLS), tool_names=model.names,
-        entry_points=sorted({f"metabolize:{p}" for p, _ in model.met}) + ["execute_tool_call", "llm-loop"],
+        entry_points=sorted({f"metabolize:{p}" for p, _ in model.met}) + ["digest_glucose", "execute_tool_call", "llm-loop"],
     )
     if max_dev is not None:
-        ctx.coverage["caps_hit"] = f"engine B bounded to {max_dev} non-default answers per scenario in the quick tier"
+        ctx.coverage["caps_hit"] = (f"engine B bounded to {max_dev} non-default answers per scenario in the quick tier; engine D "
+                                    "histories vary one constructor option at a time and use engine A's declarations in the quick tier")
     if not res["fixpoint"]:
         ctx.coverage["caps_hit"] = (ctx.coverage.get("caps_hit", "") + f"; engine A depth {depth} reached with "
                                     f"{res['frontier_left']} frontier states left").lstrip("; ")
     ctx.assumptions += [
         "max_ros=1e9: the ROS latch (which only ever refuses more) never engages within the explored depth",
-        "requirements are sets of Capability members; a tool declaring both `required_capabilities` and `capabilities` "
-        "is not modelled (the statement does not say which one is 'the' declaration)",
-        "hidden state outside Mitochondria.__dict__ (module globals, closures) is not part of the canonical state",
+        "a tool declaring DIFFERENT requirements in `required_capabilities` and `capabilities` is not modelled (the statement "
+        "does not say which one is 'the' declaration); the same requirement in both is",
+        "hidden state outside Mitochondria.__dict__ (module globals, closures, the tool object) is not part of engine A's "
+        "canonical state; engine D therefore replays call / re-registration histories without any state merging",
+        "a requirement given as a plain string is out of bounds for every allowed set of Capability members",
+        "not asserted (the statement quantifies over registrations and calls only): changing a tool's declaration or the "
+        "allowed set in place after registration / construction, writing to the public `tools` dict directly",
     ]
 
 
 def replay(ctx, case):
+    if case.get("engine") == "D":
+        return list(_quiet_scenario(case["scenario"])[0])
     if case.get("engine") == "B":
         root = case["root"]
         run_ = make_run(int(root[0]), int(root[1]), int(case["max_iter"]))
